@@ -109,6 +109,12 @@ func (c *ChartDownloader) DownloadTo(ref, version, dest string) (string, *proven
 		name = fmt.Sprintf("%s-%s.tgz", name[:idx], name[idx+1:])
 	}
 
+	// The file name comes from the URL. A path that ends in "/", "." or ".." has no
+	// file name, and joining it with dest would point at dest itself or its parent.
+	if name == "." || name == ".." || name == string(filepath.Separator) {
+		return "", nil, errors.Errorf("cannot derive a file name from chart URL %q", u.String())
+	}
+
 	destfile := filepath.Join(dest, name)
 	if err := fileutil.AtomicWriteFile(destfile, data, 0644); err != nil {
 		return destfile, nil, err
